@@ -410,6 +410,7 @@ func (x *FnExec) applyContractSig(in ssa.Instruction, con *Contract, calleeName 
 			x.panicIfTyp(st, pcond, what, ptyp)
 		}
 	}
+	x.havocPtrs = nil
 	doHavoc(st)
 	var rs []Val
 	for _, t := range resultTypes(sig) {
@@ -419,6 +420,9 @@ func (x *FnExec) applyContractSig(in ssa.Instruction, con *Contract, calleeName 
 	na := x.ctx.Fresh("alloc_c", SInt)
 	x.ctx.Assert(Ge(na, pre.alloc))
 	st.alloc = na
+	// addresses the callee stored into the locations it may modify refer to memory that exists
+	// when it returns
+	x.boundHavocPtrs(na)
 	// whatever address a callee returns refers to memory that exists when it returns: below the
 	// allocation frontier after the call (so it cannot coincide with anything allocated later)
 	for i, t := range resultTypes(sig) {
